@@ -269,7 +269,7 @@ impl Prop for C03 {
     }
     fn runs(&self, tier: Tier) -> u64 {
         match tier {
-            Tier::Quick => 1500,
+            Tier::Quick => 1300,
             Tier::Thorough => 30000,
         }
     }
@@ -279,12 +279,13 @@ impl Prop for C03 {
          generated pre-state, executed once under a seeded gate schedule to record its write/remove log L; then EVERY prefix S0+L[..k] is opened with a fresh handle (index load, every listed snapshot read \
          completely, old snapshots compared with their model), and for up to 12 (quick) / 24 (thorough) positions j the command is re-executed from S0 under the same schedule with op j failing \
          (no effect) and again with op j failing after taking effect: the command must return Err (a panic is its own violation class) and the resulting state and every later prefix must satisfy the same oracle. \
-         evaluations = crash prefixes + fault re-executions; non-trivial = log has >= 2 mutation ops; distinct = hash(kind, model, config, log)"
+         Finally one read or listing of the command fails (up to 6/12 positions): the command may cope or give up, but must not panic or hang, and the final state must satisfy the oracle. evaluations = crash prefixes + fault re-executions; non-trivial = log has >= 2 mutation ops; distinct = hash(kind, model, config, log)"
     }
     fn assumptions(&self) -> Vec<&'static str> {
         vec![
             "storage operations are atomic (a torn object is observably the same as truncate-after-the-fact, which C05 generates)",
             "instant-delete + early-delete-index and hot/cold pairs are excluded as the property states",
+            "read and listing failures go beyond the quantifier (write/remove failures): they are injected with the weaker oracle 'Ok or Err, final state sound', and not into repair index / repair snapshots, whose function is to take an unreadable pack or tree for damage",
         ]
     }
 
@@ -490,7 +491,8 @@ impl Prop for C03 {
         let mode = sim.draw_mode(s.sched, &[0, 1], rng.chance(1, 8));
         sim.store.clear_log();
         let base = run_kind(&mut sim, kind, &mode, &ctx);
-        let log: Vec<Op> = sim.store.log().into_iter().filter(|o| o.kind.is_mutation()).collect();
+        let full_log: Vec<Op> = sim.store.log();
+        let log: Vec<Op> = full_log.iter().filter(|o| o.kind.is_mutation()).cloned().collect();
         let kout = match base {
             Cmd::Ok(k) => k,
             r => {
@@ -618,6 +620,67 @@ impl Prop for C03 {
                         rep.trace = f.trace.clone();
                         break 'faults;
                     }
+                }
+            }
+        }
+        // ---------- read failures: one read or listing of the command fails. The command may cope (Ok) or give
+        // up (Err); either way no visible snapshot may be unreadable or have lost data afterwards.
+        // (not for the repair commands: taking an unreadable pack or tree for damage is their function)
+        if rep.violations.is_empty() && s.only_prefix.is_none() && s.only_fault.is_none() && !kind.starts_with("repair") {
+            let mut positions: Vec<(u32, u8, usize, bool)> = vec![]; // actor, type, k-th read/list of that type, is_list
+            let mut counters: BTreeMap<(u32, u8, bool), usize> = BTreeMap::new();
+            for o in &full_log {
+                let is_list = o.kind == crate::store::OpKind::List;
+                if !(is_list || matches!(o.kind, crate::store::OpKind::ReadFull | crate::store::OpKind::ReadPartial)) {
+                    continue;
+                }
+                let c = counters.entry((o.actor, crate::store::ft_code(o.tpe), is_list)).or_insert(0);
+                positions.push((o.actor, crate::store::ft_code(o.tpe), *c, is_list));
+                *c += 1;
+            }
+            rng.shuffle(&mut positions);
+            positions.truncate(s.max_faults / 2);
+            for (actor, tpe, k, is_list) in positions {
+                let mut f = sim.fork(s0.clone(), "c03-readfault");
+                f.rng = rng_at_k.clone();
+                f.strict_bg_panics = false;
+                let mode_f = f.draw_mode(s.sched, &[0, 1], false);
+                f.store.set_faults(vec![if is_list { Fault::FailList { actor, tpe, k } } else { Fault::FailRead { actor, tpe, k } }]);
+                f.store.clear_log();
+                let r = run_kind(&mut f, kind, &mode_f, &ctx);
+                let flog_all = f.store.log();
+                let fired = flog_all.iter().any(|o| o.fault.is_some());
+                rep.gates += f.gates;
+                if !fired {
+                    rep.fire("fault_not_reached", 1);
+                    continue;
+                }
+                evaluations += 1;
+                rep.fire(if is_list { "fail_list" } else { "fail_read" }, 1);
+                let what = format!("{} {} #{k}", if is_list { "list" } else { "read" }, crate::store::ft_name(crate::store::ft_from(tpe)));
+                match &r {
+                    Cmd::Panic(p) => rep.violation(format!("C03/panic-on-io-error:{kind}:{}", common::classify(&common::short_loc(p))), format!("{kind} panicked when its {what} failed: {p}")),
+                    Cmd::NoProgress => rep.violation(format!("C03/hang-on-io-error:{kind}:{what}"), format!("{kind} did not return after its {what} failed")),
+                    Cmd::Harness(h) => rep.harness_errors.push(h.clone()),
+                    Cmd::Ok(_) => rep.fire("command_coped_with_failed_read", 1),
+                    Cmd::Err(_) => {}
+                }
+                let flog: Vec<Op> = flog_all.into_iter().filter(|o| o.kind.is_mutation()).collect();
+                let mut exp_f = expected.clone();
+                for (h, _) in &kout.new_known {
+                    if !flog.iter().any(|o| o.tpe == rustic_core::FileType::Snapshot && id_hex(&o.id) == *h && o.ok) {
+                        let _ = exp_f.remove(h);
+                    }
+                }
+                let files = f.store.files();
+                rep.states.push(files_digest(&files));
+                let pw = password_oracle(&mut f, kind, &files);
+                for (fp, d) in f.state_oracle(files, &exp_f, &kout.may_vanish, &ignore).into_iter().chain(pw) {
+                    rep.violation(format!("C03/after-failed-read:{kind}:{fp} [{}]", what.split(' ').take(2).collect::<Vec<_>>().join(" ")), format!("{kind} with failing {what}: {d}"));
+                }
+                if !rep.violations.is_empty() {
+                    rep.trace = f.trace.clone();
+                    break;
                 }
             }
         }
